@@ -905,6 +905,17 @@ func c12ReportPlumbingIn(c *Ctx) {
 			ok, why = false, "the rendered histogram's buckets are never parsed"
 		}
 	}
+	// UnmarshalText appends to its receiver: the command must hand it buckets nobody has filled before
+	// (defaults stored first would stay in front of the bounds given on the command line)
+	eachInstrI(rep, func(i ssa.Instruction) {
+		st, isSt := i.(*ssa.Store)
+		if !isSt {
+			return
+		}
+		if fa, isFA := st.Addr.(*ssa.FieldAddr); isFA && isNamedType(fa.X.Type(), "lib", "Histogram") && fieldName(fa.X.Type(), fa.Field) == "Buckets" {
+			ok, why = false, "the command stores into Histogram.Buckets itself ("+c.at(st)+"): UnmarshalText appends to what is already there, so the given bounds are not the histogram's bounds"
+		}
+	})
 	// the hist[...] suffix is sliced out of the report type only when it is long enough
 	eachInstrI(rep, func(i ssa.Instruction) {
 		if sl, isSl := i.(*ssa.Slice); isSl && rootVal(sl.X) == ssa.Value(rep.Params[1]) {
